@@ -105,7 +105,11 @@ def shard(args):
     cases, meta = [], {}
     for i in range(s, n, nsh):
         r = grammar.Rng(seed * 7919 + i)
-        ex = grammar.gen_exchange(seed * 1000003 + i, {'res_fold': True, 'max_body': 60, 'max_n': maxn if r.chance(0.3) else 4, 'close_delimited': True})
+        opts = {'res_fold': True, 'max_body': 60, 'max_n': maxn if r.chance(0.3) else 4, 'close_delimited': True}
+        if i % 8 == 5:
+            # directed: Expect: 100-continue requests answered with a final 4xx while later requests are already in flight
+            opts.update(p_expect=0.7, expect_4xx=True)
+        ex = grammar.gen_exchange(seed * 1000003 + i, opts)
         ops, readings, style = make_history(ex, r)
         cfg = {'PERSONALITY': r.randrange(10), 'URLENC_PARSER': r.randrange(2), 'DUMP': hxb.DUMP_TX, 'AUTO_DESTROY': 0,
                'DESTROY_DONE': 1 if r.chance(0.2) else 0, 'MAX_TX': r.pick([-1, -1, 512, 100])}
